@@ -390,3 +390,67 @@ func script(assumptions []*Term, goal *Term, getValues []*Term) string {
 	}
 	return sb.String()
 }
+
+// sliceAssumptions: the assumptions in the cone of influence of the goal. For a goal `reach => body` the cone starts
+// from the symbols of body only (the path condition is kept as it is but does not pull anything in); an assumption
+// joins when it shares a non-ubiquitous declared symbol with the cone, and then contributes its own symbols (for
+// `depth` rounds; 0 = to the fixpoint). Fewer
+// assumptions: an unsat answer under the slice is a proof of the full query.
+func sliceAssumptions(assumptions []*Term, goal *Term, depth int) []*Term {
+	body := goal
+	if goal.Op == "=>" && len(goal.Args) == 2 {
+		body = goal.Args[1]
+	}
+	n := len(assumptions)
+	symsOf := make([]map[string]bool, n)
+	freq := map[string]int{}
+	for i, a := range assumptions {
+		m := map[string]bool{}
+		collectSyms(a, map[*Term]bool{}, m)
+		symsOf[i] = m
+		for k := range m {
+			freq[k]++
+		}
+	}
+	ubiq := func(k string) bool { return n >= 12 && freq[k]*3 > n }
+	cone := map[string]bool{}
+	collectSyms(body, map[*Term]bool{}, cone)
+	for k := range cone {
+		if ubiq(k) {
+			delete(cone, k)
+		}
+	}
+	in := make([]bool, n)
+	for round := 0; depth <= 0 || round < depth; round++ {
+		var add []int
+		for i := range assumptions {
+			if in[i] {
+				continue
+			}
+			for k := range symsOf[i] {
+				if cone[k] {
+					add = append(add, i)
+					break
+				}
+			}
+		}
+		if len(add) == 0 {
+			break
+		}
+		for _, i := range add {
+			in[i] = true
+			for k := range symsOf[i] {
+				if !ubiq(k) {
+					cone[k] = true
+				}
+			}
+		}
+	}
+	var out []*Term
+	for i, a := range assumptions {
+		if in[i] {
+			out = append(out, a)
+		}
+	}
+	return out
+}
